@@ -37,7 +37,8 @@ end
 def jFault (j : Json) : FaultV :=
   { code := jText (jField j "code"), str := jText (jField j "str"), actor := jText (jField j "actor"),
     detail := match jField j "detail" with | .null => none | d => some (jKvs d),
-    lang := jText (jField j "lang") }
+    lang := jText (jField j "lang"),
+    members := (jList (jField j "members")).map fun kv => match jList kv with | [k, v] => (jText k, jText v) | _ => ([], []) }
 
 def jBoolAt (l : List Json) (i : Nat) : Bool :=
   match l[i]? with | some (.bool b) => b | _ => false
@@ -125,7 +126,8 @@ def optKvsJson : Option (List (Text × Detail)) → Json
 
 def faultJson (f : FaultV) : Json :=
   Json.mkObj [("code", textJson f.code), ("str", textJson f.str), ("actor", textJson f.actor),
-    ("detail", optKvsJson f.detail), ("lang", textJson f.lang)]
+    ("detail", optKvsJson f.detail), ("lang", textJson f.lang),
+    ("members", Json.arr (f.members.map fun (k, v) => Json.arr #[textJson k, textJson v]).toArray)]
 
 partial def xmlJson : Xml → Json
   | .elem t a x c => Json.mkObj [("t", textJson t),
@@ -182,7 +184,8 @@ def step (j : Json) : Json :=
     | none => Json.mkObj [("ok", Json.null)]
   | "wsgi" =>
     let req : Option Proto := match jField j "req" with | .null => none | r => some (jProto r)
-    resultJson (wsgiSwap F (jProto (jField j "proto")) req (optNat (jField j "preset")) (jUser (jField j "user")))
+    let aux : List AuxOutcome := (jList (jField j "aux")).map fun a => if a == Json.str "propagates" then .propagates else .done
+    resultJson (wsgiAux F (jProto (jField j "proto")) req (optNat (jField j "preset")) (jUser (jField j "user")) aux)
   | "client" =>
     let w := jWire (jField j "w")
     let r := match jProto (jField j "proto") with
